@@ -339,3 +339,81 @@ func isInt32(t types.Type) bool {
 	b, ok := t.Underlying().(*types.Basic)
 	return ok && b.Kind() == types.Int32
 }
+
+// ruleClampBound (T6-CLAMP): a clamp assigns the bound it tested.  In the settings normaliser (the function from a
+// settings value to a settings value) a numeric leaf is limited by `if leaf > K { leaf = K }`; the constant that is
+// compared and the constant that is stored are the same.  With two different constants (`> 64` copied from the
+// clamp above, `= 512` stored) every value between them - a legal, recognised value - is replaced instead of
+// taking effect.
+func ruleClampBound(c *Ctx) {
+	if c.ranOnce("ruleClampBound") {
+		return
+	}
+	spk := c.P.SSAPkg("internal/server")
+	n := 0
+	for _, f := range c.P.ModuleFuncs() {
+		if f.Pkg != spk || f.Signature.Recv() != nil || f.Signature.Params().Len() != 1 || f.Signature.Results().Len() != 1 {
+			continue
+		}
+		pt := f.Signature.Params().At(0).Type()
+		if !types.Identical(pt, f.Signature.Results().At(0).Type()) || !strings.Contains(strings.ToLower(types.TypeString(pt, nil)), "settings") {
+			continue
+		}
+		// field path of an address below the parameter's cell
+		pathOf := func(a ssa.Value) string {
+			var parts []string
+			for {
+				fa, ok := a.(*ssa.FieldAddr)
+				if !ok {
+					break
+				}
+				parts = append([]string{fieldVarOfAddr(fa).Name()}, parts...)
+				a = fa.X
+			}
+			if len(parts) == 0 {
+				return ""
+			}
+			return strings.Join(parts, ".")
+		}
+		for _, b := range f.Blocks {
+			iff, ok := lastInstr(b).(*ssa.If)
+			if !ok {
+				continue
+			}
+			bo, ok := iff.Cond.(*ssa.BinOp)
+			if !ok || (bo.Op != token.GTR && bo.Op != token.LSS && bo.Op != token.GEQ && bo.Op != token.LEQ) {
+				continue
+			}
+			ld, ok := bo.X.(*ssa.UnOp)
+			k1, isK := bo.Y.(*ssa.Const)
+			if !ok || !isK || ld.Op != token.MUL || k1.Value == nil || k1.Value.Kind() != constant.Int {
+				continue
+			}
+			leaf := pathOf(ld.X)
+			if leaf == "" || len(b.Succs) != 2 {
+				continue
+			}
+			for _, ins := range b.Succs[0].Instrs {
+				st, ok := ins.(*ssa.Store)
+				if !ok || pathOf(st.Addr) != leaf {
+					continue
+				}
+				k2, isK2 := st.Val.(*ssa.Const)
+				if !isK2 || k2.Value == nil || k2.Value.Kind() != constant.Int {
+					continue
+				}
+				if k1.Int64() <= 0 {
+					continue // "not positive: take the default" is not a clamp
+				}
+				n++
+				c.check(k1.Int64() == k2.Int64(), "T6-CLAMP", funcName(f), "the clamp of "+leaf+" stores the bound it tested", st.Pos(),
+					"compared and stored constant agree",
+					fmt.Sprintf("the normaliser compares %s with %d but stores %d: every value between the two - a recognised, well-typed value - is replaced instead of taking effect", leaf, k1.Int64(), k2.Int64()))
+			}
+		}
+	}
+	c.note("T6-CLAMP: clamps in the settings normaliser: %d", n)
+	if n == 0 {
+		c.ok("T6-CLAMP", "server", "no clamp with a constant bound in the settings normaliser", token.NoPos, "nothing to compare")
+	}
+}
